@@ -166,14 +166,30 @@ P.manifest = {
             "recurrence under a uniform sigma factor (C05_recurrence_ignores_uniform_sigma_factor). Also for all graphs: "
             "endpoints never count, pairs without a path contribute nothing, <=2 nodes => all 0, one entry per node, the "
             "four get_scale cases, rayon path = serial path; the fuel the model passes is never exhausted in either mode "
-            "(C05_stage_bfs_total, C05_stage_dijkstra_total, C05_weighted_total).",
-    "note": "Hypotheses of the two model-level theorems: the adjacency read (successors_vec) lists each neighbour once per "
-            "row, all indexes are in range and, in weighted mode, every cost is > 0 (integrality is by construction of the "
-            "model's weights) - checked per case (observation 53, sound by C05_rows_check_sound / C05_rows_pos_check_sound; "
-            "adj_ok is also checked by the model itself). Zero or negative weights are outside the theorem (and outside "
-            "the property: Dijkstra-style stages need positive costs). The definition is evaluated on that adjacency; that "
-            "it represents the stored edges is property C03 and is covered here by the independent Python oracle from the "
-            "edge list. Observations 52 (model = brute-force definition, n<=8, exact rationals) and 51 (heap tie choice "
+            "(C05_stage_bfs_total, C05_stage_dijkstra_total, C05_weighted_total, C05_hop_count_total). END TO END (round 2, "
+            "Proofs/BrandesWF.v; C05_betweenness_WF / _reachable / _constructed): for EVERY graph state satisfying the "
+            "coherence invariant WF, hence every state reachable by any history of mutations or returned by the "
+            "constructor, every heap tie choice, both modes and both scalings, betweenness_centrality returns Ok - no "
+            "error, no panic, fuel never exhausted - with one entry per node in node order and values equal (as "
+            "rationals) to bc_def of the EDGE-STORE GRAPH, spelled out in the theorem: one row per node, a neighbour at "
+            "most once per row, (j,c) in row i iff an edge is stored between the i-th and the j-th node (either "
+            "orientation when undirected) and c = 1 (hop count) or the minimum stored weight of the pair (weighted; "
+            "C05_arc_cost_is_min_weight). The former per-case hypotheses are theorems: conv_adj succeeds, adj_ok, "
+            "rows_nodup, rows_pos all follow from WF (+ 'every stored weight is a positive real' in weighted mode) "
+            "(C05_WF_gives_model_hypotheses, C05_traversal_graph_is_edge_store). bc_def does not depend on the order of "
+            "the entries in a row (C05_def_row_order_irrelevant, C05_def_depends_on_arcs_only), so the value is a function "
+            "of the arc relation: C05_betweenness_WF_any_adjacency, C05_betweenness_depends_on_arcs_only (and, from the "
+            "edge multiset, C03_betweenness_depends_on_edge_store_only). Non-vacuity on a KeepLast history that replaces "
+            "a weight (betweenness of the middle node 0 before, 1 after): C05_reachable_nonvacuous.",
+    "note": "Remaining premise of the end-to-end theorems: in weighted mode every stored weight is a real number > 0 "
+            "(integrality is by construction of the model's weights); none in hop-count mode. Zero or negative weights "
+            "are outside the theorem (and outside the property: Dijkstra-style stages need positive costs); a NaN weight "
+            "in weighted mode is outside the modelled domain. The hypotheses of the two model-level theorems (each "
+            "neighbour once per row, indexes in range, costs > 0) are still evaluated per case (observation 53, sound by "
+            "C05_rows_check_sound / C05_rows_pos_check_sound) but only as a tie between model and code: they are now "
+            "consequences of WF. That the adjacency read represents the stored edges is no longer delegated to C03's "
+            "per-case check: it is C05_traversal_graph_is_edge_store; the independent Python oracle from the edge list "
+            "stays. Observations 52 (model = brute-force definition, n<=8, exact rationals) and 51 (heap tie choice "
             "unobservable) are now consequences of the theorems for the model; they are kept as correspondence checks. "
             "Trusted: Coq kernel + vm_compute; harness/printers/diff (1e-9 on reals). Modelled not verified: IEEE rounding "
             "(model in Q), BinaryHeap pop among equal distances (first/last-minimal oracle in the executable model; the "
